@@ -20,6 +20,20 @@ in effect, with the C16 predicates: slots of exactly the configured width (offse
 packed and aligned), values are the unsigned integers stored, the fields behind the pointers read what was stored, dereference ==
 parse of the target at that offset (target type from an instance configured with that width from the start), stream untouched,
 stable, null error, arithmetic, dumps of the parsed and of a constructed object give the bytes back; both readers.
+
+Same-name targets (harness/u4_c16.py, same_name_histories): on ONE instance pointers to DISTINCT target types that carry the same
+type name -- inline `struct TAG {...} *p` / `union TAG {...} *p` members reusing a tag with another layout, a top-level `struct TAG`, a
+type re-registered under TAG with `add_type(replace=True)`, pointer typedefs before / after the re-registration, `*p`, `*p[2]`, `**p` --
+every pointer of every parent structure is dereferenced after the history and compared (values and member names) with parsing the
+DECLARED target layout (loaded under a unique name on a reference instance) at that offset; stream, stability, arithmetic, dumps.
+
+Multi-hop chains (harness/u4_c16.py, chain_walks): a generated graph of structures holding pointers (to scalars, `char *`, `void *`,
+themselves, earlier structures, pointer arrays, pointers to pointers, inline nested structures and arrays of structures with pointers,
+an optional dynamic tail) and a linked memory image (shared targets, cycles, null / wild addresses); from the parsed head structure
+every pointer reached is dereferenced breadth first up to 8 hops (`head.list->next->next`, `rec->name`), each hop compared with
+parsing the target type at that absolute offset of the original bytes on a fresh stream, with the stream parked at random positions,
+repeated dereference, arithmetic on inner pointers (`(p + k).dereference()` == parse at addr + k), attribute access through the
+pointer and dumps() of the dereferenced structure; all seven widths, both byte orders, both readers, packed and aligned.
 """
 from __future__ import annotations
 
@@ -28,6 +42,7 @@ import itertools
 
 from .. import common, defs, impl, refimpl, s2_ptr
 from .. import t5_c16 as t5
+from .. import u4_c16 as u4
 from ..common import A, Case, Result, mkrng, parse_sexp, run_driver, sx
 
 PTRS = dict(s2_ptr.ALL_PTRS)   # uint8 .. uint128, packable and not
@@ -54,7 +69,11 @@ def run(env) -> Result:
                 "dereference == parse of the target at that offset, stream position untouched, stability, null/streamless errors, arithmetic, "
                 "dump back unchanged through 10 writing paths. Histories on one instance: cs.pointer reassigned (all widths) between declarations, "
                 "pointers to targets that had / never had a pointer under an earlier width, every structure checked under the width it was "
-                "declared with (layout packed and aligned, values, fields behind the pointers, dereference, dumps, len == consumed == dumped). distinct = (config, target, address, data); non-trivial = non-null address")
+                "declared with (layout packed and aligned, values, fields behind the pointers, dereference, dumps, len == consumed == dumped). "
+                "Same-name targets: distinct target types sharing a type name on one instance (inline tags reused with other layouts, add_type(replace=True), "
+                "pointer typedefs), every pointer dereferenced against the declared layout. Multi-hop chains: generated graphs of structures holding pointers "
+                "and linked memory images, every pointer reached from the head dereferenced up to 8 hops against a fresh parse at that absolute offset, "
+                "stream parked at random positions, arithmetic on inner pointers, attribute access, dumps of dereferenced structures. distinct = (config, target, address, data); non-trivial = non-null address")
     dc = impl.dc()
     rnd = mkrng(env["seed"], "c16")
     tier = env["tier"]
@@ -348,6 +367,9 @@ def run(env) -> Result:
             res.feat("reconfig:history")
             res.feat(f"reconfig:history-phases:{min(len(widths), 8)}")
             t5.run_history(dc, widths, endian, rnd5, tier, res, viol)
+    # ---- distinct target types that share a type name on one instance; multi-hop dereference chains (own PRNG streams)
+    u4.same_name_histories(dc, env, res, viol, mkrng(env["seed"], "c16-same-name"))
+    u4.chain_walks(dc, env, res, viol, mkrng(env["seed"], "c16-chains"))
     # pointer inside a fixed-size union (finding F11): the dereference must read the outer stream
     for pname, endian in itertools.product(("uint16", "uint32"), "<>"):
         cs = dc.cstruct(endian=endian, pointer=pname)
